@@ -31,9 +31,22 @@ def _with_lines(code) -> dict:
         import dis
 
         got = {}
+        entry_nops = set()
+        after_with = False
         for ins in dis.get_instructions(code):
             if ins.opname in ("BEFORE_WITH", "BEFORE_ASYNC_WITH") and ins.positions and ins.positions.lineno:
                 got.setdefault(ins.positions.lineno, ins.offset)
+                after_with = True
+                continue
+            if after_with:
+                if ins.opname in ("POP_TOP", "STORE_FAST", "STORE_NAME", "STORE_GLOBAL", "STORE_DEREF", "STORE_ATTR"):
+                    continue
+                if ins.opname == "NOP":
+                    # a bare `try:` as first statement of the with body: a NOP between __enter__ and the protected
+                    # range, where no real exception can be delivered either
+                    entry_nops.add(ins.offset)
+                after_with = False
+        got["_entry_nops"] = entry_nops
         _WITH_LINES[code] = got
     return got
 
@@ -62,7 +75,8 @@ class AbortInjector:
         self.count += 1
         if self.count == self.k and self.fired is None:
             wl = _with_lines(code)
-            if where in wl and sys._getframe(2).f_lasti > wl[where]:
+            lasti = sys._getframe(2).f_lasti
+            if (where in wl and lasti > wl[where]) or lasti in wl["_entry_nops"]:
                 self.k += 1  # the clean-up of a `with` block: not an injection point, take the next line instead
                 return
             self.fired = f"{code.co_filename[self.pkg_len:]}:{code.co_name}:L{where}"
